@@ -1,8 +1,342 @@
-//! C18 — correspondence driver (stub: not built yet).
+//! C18 — determinism: a workload of floating point and formatting results for the
+//! cross-execution comparison of props/c18_extra.py (never compared with the model: protocol
+//! `none`).  Every case is independent (`@ …`) and prints only canonical text: `f64::to_bits` in
+//! hex, `Display` / `Debug` strings (newlines escaped), tape positions, error values.
+//!
+//!   @ det <n> <seed> via=matrix|tensor|method     determinant of a pseudo-random n×n f64 matrix,
+//!                                                 computed twice: `bits=<hex> again=<hex>`
+//!   @ inverse <n> <seed> via=matrix|tensor        all entries (or `none`), twice
+//!   @ matmul <r> <k> <c> <seed>                   Matrix × Matrix and Tensor × Tensor products
+//!   @ stats <n> <seed>                            mean, variance, softmax, covariance
+//!   @ decomp <n> <seed>                           cholesky / ldlt / qr of an SPD / general matrix
+//!   @ gaussian <seed>                             density values and draws from a seeded source
+//!   @ autodiff <seed>                             Record / Trace expressions: values, derivatives,
+//!                                                 tape positions
+//!   @ display <seed>                              Display / Debug of tensors, views, matrices, errors
+//!   @ messages <seed>                             the TEXT of panic messages and of `Display`ed error
+//!                                                 values of invalid calls (several unknown / repeated
+//!                                                 names, bad shapes, records of two different
+//!                                                 WengertLists collected into one container, …)
+//!   @ names <store> <seed>                        name lookups, reordering, selection and Display on
+//!                                                 a tensor whose dimension names `rows`, `row`, `r`
+//!                                                 are stored as literals | leaked heap copies |
+//!                                                 slices of one static string (same start address):
+//!                                                 the answer must not depend on <store>
+//!
+//! Same-size determinants are generated next to each other, so that the execution modes
+//! (reverse case order, fresh thread, second process) give each of them a different history of
+//! "previously executed unrelated library calls".
 
 use crate::util::*;
+use easy_ml::differentiation::{Record, RecordMatrix, RecordTensor, Trace, WengertList};
+use easy_ml::distributions::Gaussian;
+use easy_ml::linear_algebra;
+use easy_ml::matrices::Matrix;
+use easy_ml::numeric::extra::{Cos, Exp, Ln, Sin, Sqrt};
+use easy_ml::tensors::views::{IndexRange, TensorChain, TensorRange, TensorView};
+use easy_ml::tensors::Tensor;
 
-pub fn gen(_g: &mut Gen) {}
+fn hex(x: f64) -> String {
+    format!("{:016x}", x.to_bits())
+}
+
+fn hexes<'a>(xs: impl Iterator<Item = f64>) -> String {
+    let v: Vec<String> = xs.map(hex).collect();
+    if v.is_empty() {
+        "-".into()
+    } else {
+        v.join(",")
+    }
+}
+
+fn esc(s: &str) -> String {
+    s.replace('\\', "\\\\").replace('\n', "\\n")
+}
+
+/// pseudo-random f64 of mixed magnitude and sign (products and sums of these round)
+fn value(rng: &mut Rng) -> f64 {
+    let mantissa = (rng.next() >> 11) as f64 / (1u64 << 53) as f64 - 0.5;
+    let exponent = (rng.below(7) as i32) - 3;
+    mantissa * 10f64.powi(exponent) + if rng.chance(1, 4) { 1.0 / 3.0 } else { 0.0 }
+}
+
+fn values(rng: &mut Rng, n: usize) -> Vec<f64> {
+    (0..n).map(|_| value(rng)).collect()
+}
+
+fn spd(rng: &mut Rng, n: usize) -> Matrix<f64> {
+    // A·Aᵀ + n·I
+    let a = Matrix::from_flat_row_major((n, n), values(rng, n * n));
+    let mut m = &a * a.transpose();
+    for i in 0..n {
+        let v = m.get(i, i) + n as f64;
+        m.set(i, i, v);
+    }
+    m
+}
+
+fn show_matrix_bits(m: &Matrix<f64>) -> String {
+    format!("{}x{}:{}", m.rows(), m.columns(), hexes(m.row_major_iter()))
+}
+
+fn show_tensor_bits<const D: usize>(t: &Tensor<f64, D>) -> String {
+    format!("{}:{}", show_shape(&t.shape()), hexes(t.iter()))
+}
+
+fn det(n: usize, seed: u64, via: &str) -> String {
+    let mut rng = Rng::new(seed);
+    let data = values(&mut rng, n * n);
+    let compute = || -> Option<f64> {
+        match via {
+            "tensor" => {
+                let t = Tensor::from([("r", n), ("c", n)], data.clone());
+                linear_algebra::determinant_tensor::<f64, _, _>(&t)
+            }
+            "method" => Matrix::from_flat_row_major((n, n), data.clone()).determinant(),
+            _ => linear_algebra::determinant::<f64>(&Matrix::from_flat_row_major((n, n), data.clone())),
+        }
+    };
+    let first = compute();
+    let again = compute();
+    let show = |x: Option<f64>| x.map(hex).unwrap_or_else(|| "none".into());
+    format!("bits={} again={}", show(first), show(again))
+}
+
+fn inverse(n: usize, seed: u64, via: &str) -> String {
+    let mut rng = Rng::new(seed);
+    let data = values(&mut rng, n * n);
+    let compute = || -> String {
+        match via {
+            "tensor" => {
+                let t = Tensor::from([("r", n), ("c", n)], data.clone());
+                linear_algebra::inverse_tensor::<f64, _, _>(&t).map(|t| show_tensor_bits(&t)).unwrap_or_else(|| "none".into())
+            }
+            _ => linear_algebra::inverse::<f64>(&Matrix::from_flat_row_major((n, n), data.clone()))
+                .map(|m| show_matrix_bits(&m))
+                .unwrap_or_else(|| "none".into()),
+        }
+    };
+    let first = compute();
+    let again = compute();
+    format!("bits={} again={}", first, again)
+}
+
+fn matmul(r: usize, k: usize, c: usize, seed: u64) -> String {
+    let mut rng = Rng::new(seed);
+    let a = values(&mut rng, r * k);
+    let b = values(&mut rng, k * c);
+    let ma = Matrix::from_flat_row_major((r, k), a.clone());
+    let mb = Matrix::from_flat_row_major((k, c), b.clone());
+    let ta = Tensor::from([("r", r), ("k", k)], a);
+    let tb = Tensor::from([("k", k), ("c", c)], b);
+    let mm = &ma * &mb;
+    let tt = &ta * &tb;
+    let v = Tensor::from([("k", k)], ma.row_iter(0).collect());
+    let w = Tensor::from([("k", k)], mb.column_iter(0).collect());
+    format!("matrix={} tensor={} dot={}", show_matrix_bits(&mm), show_tensor_bits(&tt), hex(v.scalar_product(&w)))
+}
+
+fn stats(n: usize, seed: u64) -> String {
+    let mut rng = Rng::new(seed);
+    let xs = values(&mut rng, n);
+    let mean = linear_algebra::mean::<_, f64>(xs.iter().cloned());
+    let var = linear_algebra::variance::<_, f64>(xs.iter().cloned());
+    let soft = linear_algebra::softmax::<_, f64>(xs.iter().cloned());
+    let cols = 3.min(n);
+    let rows = n / cols;
+    let m = Matrix::from_flat_row_major((rows, cols), xs[..rows * cols].to_vec());
+    let cov = linear_algebra::covariance_column_features::<f64>(&m);
+    let t = Tensor::from([("s", rows), ("f", cols)], xs[..rows * cols].to_vec());
+    let covt = linear_algebra::covariance::<f64, _, _>(&t, "f");
+    format!(
+        "mean={} variance={} softmax={} cov={} covt={} f1={}",
+        hex(mean),
+        hex(var),
+        hexes(soft.into_iter()),
+        show_matrix_bits(&cov),
+        show_tensor_bits(&covt),
+        hex(linear_algebra::f1_score::<f64>(xs[0].abs(), xs[n - 1].abs() + 0.1))
+    )
+}
+
+fn decomp(n: usize, seed: u64) -> String {
+    let mut rng = Rng::new(seed);
+    let m = spd(&mut rng, n);
+    let chol = linear_algebra::cholesky_decomposition::<f64>(&m).map(|l| show_matrix_bits(&l)).unwrap_or_else(|| "none".into());
+    let ldlt = linear_algebra::ldlt_decomposition::<f64>(&m)
+        .map(|d| format!("{}|{}", show_matrix_bits(&d.l), show_matrix_bits(&d.d)))
+        .unwrap_or_else(|| "none".into());
+    let g = Matrix::from_flat_row_major((n + 1, n), values(&mut rng, (n + 1) * n));
+    let qr = linear_algebra::qr_decomposition::<f64>(&g)
+        .map(|d| format!("{}|{}", show_matrix_bits(&d.q), show_matrix_bits(&d.r)))
+        .unwrap_or_else(|| "none".into());
+    format!("cholesky={} ldlt={} qr={}", chol, ldlt, qr)
+}
+
+fn gaussian(seed: u64) -> String {
+    let mut rng = Rng::new(seed);
+    let g = Gaussian::new(value(&mut rng), value(&mut rng).abs() + 0.5);
+    let xs = values(&mut rng, 4);
+    let probs = hexes(xs.iter().map(|x| g.probability(x)));
+    let mut source = (0..64).map(|_| (rng.next() >> 11) as f64 / (1u64 << 53) as f64).collect::<Vec<f64>>().into_iter();
+    let draws = g.draw(&mut source, 7).map(|v| hexes(v.into_iter())).unwrap_or_else(|| "none".into());
+    let fitted = Gaussian::approximating(xs.iter().cloned());
+    format!("prob={} draws={} fit={},{}", probs, draws, hex(fitted.mean), hex(fitted.variance))
+}
+
+fn autodiff(seed: u64) -> String {
+    let mut rng = Rng::new(seed);
+    let (a, b, c) = (value(&mut rng).abs() + 0.5, value(&mut rng).abs() + 0.25, value(&mut rng));
+    let list = WengertList::new();
+    let x = Record::variable(a, &list);
+    let w = Record::variable(b, &list);
+    let k = Record::constant(c);
+    let y = ((&x * &w).sin() + &x / &w - (&w * &k).exp().sqrt()) * (&x + &w).ln() + (&x).cos();
+    let d = y.derivatives();
+    let first = format!(
+        "y={} dx={} dw={} pos={},{},{}",
+        hex(y.number),
+        hex(d[&x]),
+        hex(d[&w]),
+        x.index,
+        w.index,
+        y.index
+    );
+    // the same expression again on the same (now longer) list: positions shift, values do not
+    let x2 = Record::variable(a, &list);
+    let w2 = Record::variable(b, &list);
+    let y2 = ((&x2 * &w2).sin() + &x2 / &w2 - (&w2 * &k).exp().sqrt()) * (&x2 + &w2).ln() + (&x2).cos();
+    let d2 = y2.derivatives();
+    let second = format!("y={} dx={} dw={} pos={},{},{}", hex(y2.number), hex(d2[&x2]), hex(d2[&w2]), x2.index, w2.index, y2.index);
+    let tx = Trace::variable(a);
+    let tw = Trace::constant(b);
+    let ty = (tx * tw).sin() + tx / tw;
+    format!("{} | {} | trace={},{}", first, second, hex(ty.number), hex(ty.derivative))
+}
+
+fn display(seed: u64) -> String {
+    let mut rng = Rng::new(seed);
+    let t = Tensor::from([("b", 2), ("r", 2), ("c", 3)], values(&mut rng, 12));
+    let m = Matrix::from_flat_row_major((2, 3), values(&mut rng, 6));
+    let view = t.select([("b", 1)]);
+    let bad = Tensor::<f64, 2>::try_from([("x", 2), ("x", 2)], vec![0.0; 4]).unwrap_err();
+    let inv = catch(|| t.index_by(["c", "b", "b"])).map(|_| ()).err().map(|k| k.as_str().to_string());
+    let parts = vec![
+        format!("{}", t),
+        format!("{:.3}", t),
+        format!("{:?}", t),
+        format!("{}", m),
+        format!("{:.2}", m),
+        format!("{:?}", m),
+        format!("{}", view),
+        format!("{}", t.index_by(["c", "b", "r"])),
+        format!("{}", bad),
+        format!("{:?}", bad),
+        format!("{:?}", inv),
+        format!("{:e} {:?} {}", value(&mut rng), value(&mut rng), value(&mut rng)),
+    ];
+    esc(&parts.join(" ¦ "))
+}
+
+/// the message a call panics with (`-` if it returns)
+fn panic_message<R>(f: impl FnOnce() -> R) -> String {
+    match std::panic::catch_unwind(std::panic::AssertUnwindSafe(f)) {
+        Ok(_) => "-".into(),
+        Err(payload) => {
+            if let Some(s) = payload.downcast_ref::<&str>() {
+                (*s).to_string()
+            } else if let Some(s) = payload.downcast_ref::<String>() {
+                s.clone()
+            } else {
+                "?".into()
+            }
+        }
+    }
+}
+
+fn messages(seed: u64) -> String {
+    let mut rng = Rng::new(seed);
+    let t = Tensor::from([("a", 2), ("b", 3), ("c", 2)], (0..12).map(|i| i as f64).collect());
+    let m = Matrix::from_flat_row_major((2, 3), (0..6).map(|i| i as f64).collect());
+    // unknown / repeated names in a pseudo-random but seed-determined order
+    let mut unknown = vec!["zz", "yy", "ww", "vv", "uu"];
+    rng.shuffle(&mut unknown);
+    let (l1, l2) = (WengertList::new(), WengertList::new());
+    let (l3, l4) = (Box::new(WengertList::new()), Box::new(WengertList::new()));
+    let mixed = |a: &'_ WengertList<f64>, b: &'_ WengertList<f64>| -> String {
+        let records = vec![Record::variable(1.0, a), Record::variable(2.0, b), Record::constant(3.0), Record::variable(4.0, a)];
+        let e1 = RecordTensor::from_iter([("x", 4)], records.clone()).err().map(|e| e.to_string());
+        let e2 = RecordMatrix::from_iter((2, 2), records).err().map(|e| e.to_string());
+        format!("{:?} ¦ {:?}", e1, e2)
+    };
+    let parts = vec![
+        panic_message(|| t.reverse(&[unknown[0], unknown[1], unknown[2]])),
+        panic_message(|| t.reverse(&["a", unknown[3], "b", unknown[4]])),
+        panic_message(|| t.reverse(&["a", "a"])),
+        panic_message(|| t.index_by([unknown[0], "a", unknown[1]])),
+        panic_message(|| t.transpose(["c", "c", "a"])),
+        panic_message(|| t.select([(unknown[2], 0)])),
+        panic_message(|| t.select([("a", 7)])),
+        panic_message(|| Tensor::from([("a", 2), ("a", 2)], vec![0.0; 4])),
+        panic_message(|| Tensor::from([("a", 2), ("b", 2)], vec![0.0; 5])),
+        panic_message(|| t.rename_view(["q", "q", "r"])),
+        panic_message(|| m.get(5, 1)),
+        panic_message(|| m.row_iter(9).count()),
+        panic_message(|| Matrix::from_flat_row_major((2, 2), vec![0.0; 3])),
+        panic_message(|| TensorChain::<f64, (_, _), 3>::from((&t, &t), unknown[0])),
+        format!("{:?}", TensorRange::from(&t, [(unknown[1], IndexRange::new(0, 1))]).err().map(|e| e.to_string())),
+        format!("{:?}", TensorRange::from_strict(&t, [("a", IndexRange::new(1, 5))]).err().map(|e| e.to_string())),
+        format!("{:?}", Tensor::<f64, 2>::try_from([("x", 0), ("y", 2)], vec![]).err().map(|e| e.to_string())),
+        mixed(&l1, &l2),
+        mixed(&l4, &l3),
+        mixed(&l2, &l4),
+    ];
+    esc(&parts.join(" ¦ "))
+}
+
+/// the three dimension names `rows`, `row`, `r` in three storage layouts
+fn stored_names(store: &str) -> [&'static str; 3] {
+    static TABLE: &str = "rows";
+    match store {
+        // slices of one string: all three start at the same address
+        "sliced" => [&TABLE[..4], &TABLE[..3], &TABLE[..1]],
+        // separate heap allocations
+        "leaked" => [
+            Box::leak(String::from("rows").into_boxed_str()),
+            Box::leak(String::from("row").into_boxed_str()),
+            Box::leak(String::from("r").into_boxed_str()),
+        ],
+        _ => ["rows", "row", "r"],
+    }
+}
+
+fn names(store: &str, seed: u64) -> String {
+    let mut rng = Rng::new(seed);
+    let [a, b, c] = stored_names(store);
+    let data: Vec<f64> = (0..24).map(|i| i as f64 + (rng.below(10) as f64) / 16.0).collect();
+    let t = Tensor::from([(a, 2), (b, 3), (c, 4)], data);
+    let order = match rng.below(5) {
+        0 => [b, a, c],
+        1 => [c, b, a],
+        2 => [b, c, a],
+        3 => [c, a, b],
+        _ => [a, c, b],
+    };
+    let idx = [rng.below(2), rng.below(2), rng.below(2)];
+    let parts = vec![
+        format!("{:?},{:?},{:?}", t.length_of(b), t.length_of(c), t.length_of(a)),
+        show_shape(&t.index_by(order).shape()),
+        hexes(t.index_by(order).iter()),
+        format!("{:?}", t.index_by(order).try_get_reference(idx).map(|x| hex(*x))),
+        esc(&format!("{}", t.transpose(order))),
+        show_tensor_bits(&t.reorder(order)),
+        show_tensor_bits(&t.select([(b, 1)]).map(|x| x)),
+        show_tensor_bits(&t.select([(c, 2)]).map(|x| x)),
+        format!("{:?}", catch(|| t.index_by([a, a, b])).is_err()),
+        esc(&format!("{}", TensorView::from(&t).index_by(order))),
+    ];
+    parts.join(" ¦ ")
+}
 
 pub struct Runner;
 
@@ -11,7 +345,86 @@ impl Runner {
         Runner
     }
 
-    pub fn step(&mut self, _toks: &[&str]) -> String {
-        "unimplemented".into()
+    pub fn step(&mut self, toks: &[&str]) -> String {
+        if toks.len() < 2 || toks[0] != "@" {
+            return "bad-op".into();
+        }
+        let num = |i: usize| -> usize { toks[i].parse().expect("number") };
+        let via = opt_arg("via", toks).unwrap_or("matrix");
+        let r = catch(|| match toks[1] {
+            "det" => det(num(2), num(3) as u64, via),
+            "inverse" => inverse(num(2), num(3) as u64, via),
+            "matmul" => matmul(num(2), num(3), num(4), num(5) as u64),
+            "stats" => stats(num(2), num(3) as u64),
+            "decomp" => decomp(num(2), num(3) as u64),
+            "gaussian" => gaussian(num(2) as u64),
+            "autodiff" => autodiff(num(2) as u64),
+            "display" => display(num(2) as u64),
+            "messages" => messages(num(2) as u64),
+            "names" => names(toks[2], num(3) as u64),
+            _ => "bad-op".into(),
+        });
+        match r {
+            Ok(s) => s,
+            Err(k) => panic_str(k),
+        }
+    }
+}
+
+pub fn gen(g: &mut Gen) {
+    let reps = if g.thorough { 12 } else { 4 };
+    // same-size determinants next to each other, no other size in between
+    for n in [3usize, 4, 5, 3, 4, 2, 6, 1] {
+        if n == 6 && !g.thorough {
+            continue;
+        }
+        for i in 0..reps {
+            let via = ["matrix", "tensor", "method"][i % 3];
+            let seed = g.rng.next() % 1_000_000;
+            g.count(&format!("det.n{}", n));
+            g.op(format!("@ det {} {} via={}", n, seed, via));
+        }
+    }
+    for n in [3usize, 4, 2, 4] {
+        for i in 0..reps {
+            let seed = g.rng.next() % 1_000_000;
+            g.count(&format!("inverse.n{}", n));
+            g.op(format!("@ inverse {} {} via={}", n, seed, ["matrix", "tensor"][i % 2]));
+        }
+    }
+    for _ in 0..reps * 2 {
+        let (r, k, c) = (g.rng.range(1, 4), g.rng.range(1, 5), g.rng.range(1, 4));
+        let seed = g.rng.next() % 1_000_000;
+        g.count("matmul");
+        g.op(format!("@ matmul {} {} {} {}", r, k, c, seed));
+        let seed = g.rng.next() % 1_000_000;
+        g.count("stats");
+        let n = g.rng.range(3, 12);
+        g.op(format!("@ stats {} {}", n, seed));
+    }
+    for _ in 0..reps {
+        let seed = g.rng.next() % 1_000_000;
+        g.count("decomp");
+        let n = g.rng.range(1, 4);
+        g.op(format!("@ decomp {} {}", n, seed));
+        let seed = g.rng.next() % 1_000_000;
+        g.count("gaussian");
+        g.op(format!("@ gaussian {}", seed));
+        let seed = g.rng.next() % 1_000_000;
+        g.count("autodiff");
+        g.op(format!("@ autodiff {}", seed));
+        let seed = g.rng.next() % 1_000_000;
+        g.count("display");
+        g.op(format!("@ display {}", seed));
+        let seed = g.rng.next() % 1_000_000;
+        g.count("messages");
+        g.op(format!("@ messages {}", seed));
+    }
+    for _ in 0..reps * 3 {
+        let seed = g.rng.next() % 1_000_000;
+        for store in ["literal", "leaked", "sliced"] {
+            g.count(&format!("names.{}", store));
+            g.op(format!("@ names {} {}", store, seed));
+        }
     }
 }
